@@ -492,6 +492,28 @@ def opt_payload(v, ty='?'):
     raise I.AnalysisIncomplete('payload of None')
 
 
+def res_is_ok(v):
+    """Result::is_ok as the discriminant test the `match` form compiles to (Ok = 0, Err = 1)."""
+    v = deref(v)
+    if isinstance(v, I.St) and v.adt == 'std::result::Result':
+        return I.TRUE if v.variant == 'Ok' else I.FALSE
+    if isinstance(v, I.Ite):
+        return I.ite(v.c, res_is_ok(v.a), res_is_ok(v.b))
+    if isinstance(v, I.Sym):
+        return I.b_cmp('==', RF.atom(I.discr_atom(v)), RF.const(0))
+    raise I.AnalysisIncomplete('Result::is_ok of %r' % (v,))
+
+
+@reg('std::result::Result::<T, E>::is_ok')
+def _res_is_ok(ip, st, t, a, rt):
+    return res_is_ok(a[0])
+
+
+@reg('std::result::Result::<T, E>::is_err')
+def _res_is_err(ip, st, t, a, rt):
+    return I.b_not(res_is_ok(a[0]))
+
+
 @reg('std::option::Option::<T>::is_some')
 def _is_some(ip, st, t, a, rt):
     return opt_is_some(a[0])
